@@ -164,7 +164,7 @@ def big_records(lo=41, hi=260):
         lambda b: [b[i:i + 64] for i in range(0, len(b), 64)])
 
 
-def v3_spec(max_events=80, max_n=30, with_logs=True, tids=None, records_strategy=None):
+def v3_spec(max_events=80, max_n=30, with_logs=True, tids=None, records_strategy=None, log_copies=2, force_logs=False):
     recs = records_strategy if records_strategy is not None else st.one_of(
         st.lists(S.record64(), max_size=max_events), st.lists(S.record64(), min_size=min(4, max_events), max_size=min(16, max_events)),
         *([big_records()] if max_events >= 80 else []))
@@ -177,7 +177,7 @@ def v3_spec(max_events=80, max_n=30, with_logs=True, tids=None, records_strategy
             st.tuples(st.just('kexts'), st.fixed_dictionaries({'Binaries': binaries_list})),
             st.tuples(st.just('codes'), codes_text),
             st.tuples(st.just('unknown'), st.tuples(st.sampled_from(UNKNOWN_TAGS), st.binary(max_size=40)).map(list)),
-            *([st.tuples(st.just('logs'), st.lists(logrec, max_size=4))] * (2 if with_logs else 0)),
+            *([st.tuples(st.just('logs'), st.lists(logrec, max_size=4))] * (log_copies if with_logs else 0)),
         ).map(list)
         return st.fixed_dictionaries({
             'hdr': v3_header_fields(), 'cpu': plist_dict,
@@ -192,8 +192,16 @@ def v3_spec(max_events=80, max_n=30, with_logs=True, tids=None, records_strategy
             'table': st.just(table), 'strings_block': st.booleans(),
             'xml': st.lists(st.booleans(), min_size=12, max_size=12),
             'last_pad': st.booleans(),
-        })
+            **({'forced_logs': st.lists(logrec, min_size=2, max_size=6)} if force_logs else {}),
+        }).map(_merge_forced)
     return _logs.string_table().flatmap(with_table)
+
+
+def _merge_forced(spec):
+    forced = spec.pop('forced_logs', None)
+    if forced:
+        spec['blocks'] = list(spec['blocks']) + [['logs', forced]]
+    return spec
 
 
 def _dumps(obj, xml):
